@@ -1056,7 +1056,12 @@ fn main() -> std::process::ExitCode {
     // reference-model self-checks: unit vectors and algebraic identities (harness error if they fail)
     let checks = mips_ref::self_check().and_then(|a| ppc_ref::self_check().map(|b| a + b)).and_then(|n| asm_roundtrip().map(|m| n + m));
     match checks {
-        Ok(_) => {}
+        Ok(n) => {
+            if args.first().map(|s| s.as_str()) == Some("selfcheck") {
+                println!("C02 reference self-checks passed: {} assertions", n);
+                return std::process::ExitCode::SUCCESS;
+            }
+        }
         Err(e) => {
             println!("HARNESS-ERROR property=C02 reference self-check failed: {}", e);
             return std::process::ExitCode::from(3);
